@@ -214,6 +214,8 @@ func runC18(r *vhlib.Run) {
 	// lifecycle histories of flate.Reader (Read / Close / Reset in any order over scripted sources)
 	// against the implementation-level model, per call (Flate/ImplLife.v)
 	wfllife(r)
+	// meta.Reader itself against its implementation-level model, per call (Meta/ReaderImpl.v)
+	runWMETAR(r)
 	depth := 4
 	if !r.Quick() {
 		depth = 5
